@@ -260,7 +260,7 @@ class Sim(object):
         self.al = env.import_algopy()
         self.F = self.al.Function
         self.run = run
-        self.B = programs.AlgopyBackend(self.al)
+        self.B = programs.AlgopyBackend(self.al, traced=True)
         self.clients = [Client(i, c) for i, c in enumerate(run['clients'])]
         self.events = []
         self.retained = []        # results handed out by completed calls: (seq, client, arrays, bytes)
@@ -371,17 +371,27 @@ class Sim(object):
             if c.regs is not None:
                 raise PlanInvalid('inputs wrapped twice')
             rec = c.cfg['rec']
-            c.regs = []
-            for v in rec['vals']:
+            n_in = len(rec['vals'])
+            npre = c.prog.get('npre', 0)
+            c.regs = [None] * n_in
+            # the program's prelude runs before the inputs are wrapped (its nodes are recorded in
+            # front of the independent variables)
+            for j in range(npre):
+                ins = c.prog['instrs'][j]
+                r = programs.exec_instr(ins, c.regs, self.B)
+                c.regs.append(r)
+                vals.append({'i': j, 'v': enc(unwrap(r, F))})
+            c.ip = npre
+            for j, v in enumerate(rec['vals']):
                 n0 = len(c.cg.functionList)
                 f = F(make_value(self.al, rec['kind'], v, rec.get('dtype')))
-                c.regs.append(f)
+                c.regs[j] = f
                 if not any(g is f for g in c.cg.functionList[n0:]):
                     inv.append('I4: wrapped input was not recorded in its graph')
         if c.regs is None:
             raise PlanInvalid('rec without wrapped inputs')
         n_ins = len(c.prog['instrs'])
-        k = min(step['k'], n_ins - c.ip)
+        k = max(0, min(step['k'] - (c.prog.get('npre', 0) if step.get('wrap') else 0), n_ins - c.ip))
         for _ in range(k):
             ins = c.prog['instrs'][c.ip]
             n0 = len(c.cg.functionList)
